@@ -107,7 +107,12 @@ func (s *Service) immediateBuilderBid(ctx context.Context,
 
 	s.log.Trace().Uint64("slot", uint64(slot)).Stringer("pubkey", pubkey).Msg("Obtaining immediate builder bid for validator")
 
-	results, err := s.auctionBlock(ctx, slot, parentHash, pubkey, nil)
+	// The proposer's settings may be selected by its account, as they are for its own auction.
+	account, err := s.accountsProvider.AccountByPublicKey(ctx, pubkey)
+	if err != nil {
+		account = nil
+	}
+	results, err := s.auctionBlock(ctx, slot, parentHash, pubkey, account)
 	if err != nil || results == nil || results.WinningParticipation == nil {
 		monitorBuilderBid(time.Since(started), false)
 		return nil, err
